@@ -326,7 +326,8 @@ def real_split(name, dim, mesh, q, cutoff, mode, start, mid, stop):
     fn = kern.kernel[0]
     out = []
     for pieces in ([(start, stop)], [(start, mid), (mid, stop)]):
-        kern.result[:] = 0.731
+        # arbitrary incoming accumulators: distinct value per cell
+        kern.result[:] = 0.731 + 0.0173 * np.arange(len(kern.result))
         for a, b in pieces:
             fn(kern.q_input.nq, a, b, cd.buffer.ctypes.data, values.ctypes.data,
                kern.q_input.q.ctypes.data, kern.result.ctypes.data, kern._as_dtype(cutoff), mode)
@@ -371,6 +372,7 @@ def unit_h3(cfg):
     label = "H3/%s/%s/%s" % (name, dim, ",".join("%s=%d" % kv for kv in sorted(lengths.items())))
     u = Unit(label, timeout_ms=120000)
     km = KModel.get(name)
+    mode = 1 if km.info.radius_effective_modes else 0
     mesh, syms = sym_mesh(km.info, lengths, dim)
     q = symx.oarray([symx.real("q%d" % i) for i in range(1 if dim == "1d" else 2)])
     cutoff = symx.real("cutoff")
@@ -379,13 +381,13 @@ def unit_h3(cfg):
         for x in w:
             if isinstance(x, Sym):
                 A.append(x.t > 1)
-    for pt in Reference(km, mesh, q, cutoff, 0, dim).points:
+    for pt in Reference(km, mesh, q, cutoff, mode, dim).points:
         A.append(pt["gate"])
     ex = symx.Explorer(timeout_ms=20000, max_paths=50, abstract=True)
-    paths = ex.explore(lambda: _run(km, mesh, q, cutoff, 0, dim, "call"), A)
+    paths = ex.explore(lambda: _run(km, mesh, q, cutoff, mode, dim, "call"), A)
     u.absorb(ex, paths)
     u.reachable(label, A)
-    ref = Reference(km, mesh, q, cutoff, 0, dim)
+    ref = Reference(km, mesh, q, cutoff, mode, dim)
     want_buf = ref.buffer()
     u.functions("sasmodels.kerneldll.DllKernel._call_kernel (chunk loop, step 100) composed with the kernel IR")
     for pi, p in enumerate(paths):
@@ -394,7 +396,7 @@ def unit_h3(cfg):
             continue
         r = p.result
         H = p.constraints()
-        ctx = dict(name=name, dim=dim, lengths=lengths, mode=0, want="Iq", syms=syms, q=q, cutoff=cutoff)
+        ctx = dict(name=name, dim=dim, lengths=lengths, mode=mode, want="Iq", syms=syms, q=q, cutoff=cutoff)
         u.sample({"config": label, "num_eval": r["num_eval"], "kernel_calls": r["calls"]})
         if len(r["calls"]) != (r["num_eval"] + 99) // 100:
             u.note("driver issued %d calls for %d mesh points" % (len(r["calls"]), r["num_eval"]))
@@ -731,7 +733,9 @@ def configs(chk):
 def h2_configs(chk):
     out = [("sphere", "1d", {"radius": 3}, 1),
            ("cylinder", "1d", {"radius": 3, "length": 2}, 1),
-           ("cylinder", "2d", {"radius": 2, "phi": 2}, 0)]
+           ("vesicle", "1d", {"radius": 2, "thickness": 2}, 1),        # hollow, Fq
+           ("raspberry", "1d", {"radius_lg": 3}, 1),                   # no Fq, effective radius
+           ("cylinder", "2d", {"radius": 2, "phi": 2}, 1)]
     if not chk.quick:
         out += [("cylinder", "2d", {"radius": 2, "length": 2, "phi": 2}, 0),
                 ("core_shell_parallelepiped", "1d", {"length_a": 2, "length_b": 2, "length_c": 3}, 1),
@@ -744,6 +748,7 @@ def h2_configs(chk):
 def h3_configs(chk):
     out = [("sphere", "1d", {"radius": 101}),
            ("cylinder", "1d", {"radius": 67, "length": 3}),
+           ("vesicle", "1d", {"radius": 51, "thickness": 2}),          # hollow, Fq
            ("cylinder", "2d", {"radius": 26, "length": 4})]
     if not chk.quick:
         out += [("cylinder", "2d", {"radius": 2, "length": 2, "theta": 25})]
